@@ -1628,4 +1628,59 @@ theorem resume_starts (g : Graph) (hsym : EdgeSym g) (s : State) (w : Nat) (out 
   · exact StartsOK.nil g w
   · exact StartsOK.nil g w
 
+/-! ## an occupied node has a holder -/
+
+theorem occupied_has_holder (g gv : Graph) (hs : SameStatic g gv) (s : State) (n w : Nat)
+    (hocc : isOccupied gv s n w = true) : ∃ v m, m ∈ g.copies n ∧ (s.nd m).started = some v := by
+  rw [isOccupied_iff] at hocc
+  obtain ⟨_, hm⟩ := hocc
+  have key : ∀ v, v ∈ sharedStarted gv s n → ∃ v m, m ∈ g.copies n ∧ (s.nd m).started = some v := by
+    intro v hv
+    rw [hs.sharedStarted_eq, mem_sharedStarted] at hv
+    obtain ⟨i, hi, hst⟩ := hv
+    exact ⟨v, i, hi, hst⟩
+  have cnt : limit gv s n ≤ scopedCount gv s n w → ∃ v m, m ∈ g.copies n ∧ (s.nd m).started = some v := by
+    intro hle
+    have h1 := one_le_limit gv s n
+    unfold scopedCount at hle
+    have hpos : 0 < ((sharedStarted gv s n).filter (inScopeOf (gv.node n).shape gv w)).length := by omega
+    obtain ⟨x, hx⟩ := List.exists_mem_of_length_pos hpos
+    exact key x (List.mem_filter.mp hx).1
+  cases hsh : (gv.node n).shape
+  · simp only [hsh] at hm; exact key w hm
+  · simp only [hsh] at hm; exact cnt hm
+  · simp only [hsh] at hm; exact cnt hm
+
+theorem SameStatic.refl (g : Graph) : SameStatic g g :=
+  ⟨rfl, rfl, fun _ => rfl, fun _ => rfl, fun _ => rfl, fun _ => rfl, fun _ => rfl⟩
+
+/-! ## a decidable form of `EdgeSym` -/
+
+def edgeSymB (g : Graph) : Bool :=
+  (List.range g.nodes.length).all (fun b =>
+    (g.node b).setup.all (fun e => decide (e.1 < g.nodes.length) && ((g.node e.1).cleanup.map (·.1)).contains b) &&
+    (g.node b).cleanup.all (fun e => decide (e.1 < g.nodes.length) && ((g.node e.1).setup.map (·.1)).contains b))
+
+theorem node_edges_of_ge (g : Graph) (b : Nat) (h : ¬ b < g.nodes.length) : (g.node b).setup = [] ∧ (g.node b).cleanup = [] := by
+  unfold Graph.node
+  rw [List.getD_eq_getElem?_getD, List.getElem?_eq_none (by omega)]
+  exact ⟨rfl, rfl⟩
+
+theorem edgeSymB_sound {g : Graph} (h : edgeSymB g = true) : EdgeSym g := by
+  unfold edgeSymB at h
+  simp only [List.all_eq_true, List.mem_range, Bool.and_eq_true, decide_eq_true_eq, List.contains_iff_mem] at h
+  intro a b
+  simp only [List.mem_map]
+  constructor
+  · rintro ⟨e, he, rfl⟩
+    by_cases hb : b < g.nodes.length
+    · have := ((h b hb).1 e he).2
+      simpa [List.mem_map] using this
+    · rw [(node_edges_of_ge g b hb).1] at he; simp at he
+  · rintro ⟨e, he, rfl⟩
+    by_cases ha : a < g.nodes.length
+    · have := ((h a ha).2 e he).2
+      simpa [List.mem_map] using this
+    · rw [(node_edges_of_ge g a ha).2] at he; simp at he
+
 end I2N.Trav
